@@ -542,26 +542,35 @@ func (s *SetOperation) Format(opts FormatOptions) string {
 	f := newFormatter(opts)
 	sb := f.sb
 
-	if s.Left != nil {
-		if ls, ok := s.Left.(Formatter); ok {
-			sb.WriteString(ls.Format(nestedOptions(opts)))
+	// a chain of set operations is a left-deep tree: emit it through one builder
+	chain := []*SetOperation{s}
+	for {
+		inner, ok := chain[len(chain)-1].Left.(*SetOperation)
+		if !ok || inner == nil {
+			break
+		}
+		chain = append(chain, inner)
+	}
+	writeOperand := func(st Statement) {
+		if st == nil {
+			return
+		}
+		if fs, ok := st.(Formatter); ok {
+			sb.WriteString(fs.Format(nestedOptions(opts)))
 		} else {
-			sb.WriteString(stmtSQL(s.Left))
+			sb.WriteString(stmtSQL(st))
 		}
 	}
-	sb.WriteString(f.clauseSep())
-	op := s.Operator
-	if s.All {
-		op += " ALL"
-	}
-	sb.WriteString(f.kw(op))
-	sb.WriteString(f.clauseSep())
-	if s.Right != nil {
-		if rs, ok := s.Right.(Formatter); ok {
-			sb.WriteString(rs.Format(nestedOptions(opts)))
-		} else {
-			sb.WriteString(stmtSQL(s.Right))
+	writeOperand(chain[len(chain)-1].Left)
+	for i := len(chain) - 1; i >= 0; i-- {
+		sb.WriteString(f.clauseSep())
+		op := chain[i].Operator
+		if chain[i].All {
+			op += " ALL"
 		}
+		sb.WriteString(f.kw(op))
+		sb.WriteString(f.clauseSep())
+		writeOperand(chain[i].Right)
 	}
 
 	if opts.AddSemicolon {
